@@ -419,6 +419,47 @@ theorem C19_connection_plan (dka : Bool) (dflt : ConnFate) (plan : List ConnFate
   rw [hsum shots hone]
   simp [shots, hl]
 
+/-- The same for the http2/scenario gun: `n` scenario shots of one client over ANY sequence of connections none of
+which is of the fatal kind — every step that is sent takes the connection state as the previous one left it, a step
+that fails (by its connection or by its response) ends its shot — the instance finishes all `n` shots, every shot
+reports the samples of the steps it entered (at least one when the scenario has steps). -/
+theorem C19_connection_plan_scenario (dka : Bool) (dflt : ConnFate) (plan : List ConnFate) (scn : String)
+    (steps : List (StepCfg × Reply)) (n : Nat) (isOpen : Bool)
+    (hd : dflt.fatal = false) (hp : ∀ c ∈ plan, c.fatal = false) :
+    let shots := scenarioShotsOverConns dka dflt true scn steps n isOpen plan
+    shots.length = n ∧ (∀ g ∈ shots, g.documentedFatal = false) ∧
+    (instanceRun (shots.map GunShot.run)).result = .finished ∧
+    (instanceRun (shots.map GunShot.run)).shotsTaken = n ∧
+    (steps ≠ [] → ∀ g ∈ shots, 1 ≤ g.run.reports.length) := by
+  intro shots
+  obtain ⟨hl, hnf⟩ := scenarioShotsOverConns_not_fatal dka dflt hd true scn steps n isOpen plan hp
+  obtain ⟨h1, h2, _⟩ := C19_sample_and_continue.1 shots hnf
+  refine ⟨hl, hnf, h1, by rw [h2, hl], ?_⟩
+  intro hne g hg
+  have hgf := hnf g hg
+  -- every shot of the list is a scenario shot over a step list of the same length as `steps`
+  have hshape : ∀ (k : Nat) (o : Bool) (pl : List ConnFate), ∀ g ∈ scenarioShotsOverConns dka dflt true scn steps k o pl,
+      ∃ ss : List (StepCfg × H2Facts × Reply), g = GunShot.scenario true scn ss ∧ ss ≠ [] := by
+    intro k
+    induction k with
+    | zero => intro o pl g hg; simp [scenarioShotsOverConns] at hg
+    | succ j ih =>
+      intro o pl g hg
+      simp only [scenarioShotsOverConns, List.mem_cons] at hg
+      rcases hg with rfl | hg
+      · refine ⟨_, rfl, ?_⟩
+        cases steps with
+        | nil => exact absurd rfl hne
+        | cons p rest =>
+          obtain ⟨c, r⟩ := p
+          simp only [scenarioOverConns]
+          split
+          · simp
+          · split <;> simp
+      · exact ih _ _ g hg
+  obtain ⟨ss, rfl, hss⟩ := hshape n isOpen plan g hg
+  exact (C19_sample_and_continue.2.2.1 true scn ss hgf).2 hss
+
 /-! ## the defects of the tree as found (what the two fixes repair) -/
 
 /-- `substr(5)` on a 3-byte header value: the closure as found slices `in[3:5]` and panics. -/
@@ -523,5 +564,13 @@ example : ((connShots true .h2 false [.h2, .h2, .fails {}, .noH2 (some ("", fals
     fun (f, r) => (GunShot.http true f ⟨false, 2, true⟩ "t" 7 "/" r).documentedFatal) = [false, false, false, true] := by decide
 -- the regenerated condition of the error branch
 example : Gen.RespGuard.doErrPanics true true false = false ∧ Gen.RespGuard.doErrPanics true true true = true := by decide
+
+-- C19_connection_plan_scenario: two shots of a two-step scenario, one connection per request: the second request of
+-- the first shot meets a reset, the second shot runs over good connections: 1 + 1 (failed step) + 2 samples
+example : (instanceRun ((scenarioShotsOverConns true .h2 true "s"
+      [(⟨"a", false, []⟩, .full ⟨200, fun _ => [], 0, fun _ => false, false, fun _ => false⟩),
+       (⟨"b", false, []⟩, .full ⟨404, fun _ => [], 0, fun _ => false, false, fun _ => false⟩)] 2 false
+      [.h2, .fails {}]).map GunShot.run)).samples
+    = [⟨"s.a", 0, 200, 0⟩, ⟨"s.b|__EMPTY__", 0, 0, 999⟩, ⟨"s.a", 0, 200, 0⟩, ⟨"s.b", 0, 404, 0⟩] := by decide
 
 end Pandora.Props.C19
